@@ -336,8 +336,9 @@ Fixpoint copy_members (n : loc) (l : list sobj) : list sobj * loc :=
   | s :: t => let (s', n1) := copy_sobj n s in
               let (t', n2) := copy_members n1 t in (s' :: t', n2)
   end.
-(* MultiX.copy(): members first ([x.copy() for x in geoshapes] is evaluated before the dt and
-   properties arguments), then dt.copy(), then deepcopy(_properties), then the new object *)
+(* MultiX.copy(): every member is copied with its own copy(), the multi-shape gets a new object, a
+   deep-copied _properties and dt.copy().  (Locations are numbered members first; the numbering is a
+   convention shared with the harness, only the sharing pattern is observable.) *)
 Definition copy_obj (n : loc) (o : obj) : obj * loc :=
   match o with
   | O1 s => let (s', n') := copy_sobj n s in (O1 s', n')
